@@ -272,9 +272,21 @@ def run_check(prop: str, tier: str, seed: int) -> int:
     REPLAY_DIR.mkdir(exist_ok=True, parents=True)
     confirmed = 0
     unconfirmed = 0
-    for f, _ in violations[:MAX_REPORTED + 10]:
-        if confirmed >= MAX_REPORTED:
+    # confirmation order: round-robin over call sites (first two key components), so that one site whose failures do not replay
+    # (e.g. cases poisoned by what a reused worker did before) cannot use up all attempts before another site is tried
+    groups: dict = {}
+    for f, kf in violations:
+        groups.setdefault("|".join(f["key"].split("|")[:2]), []).append((f, kf))
+    ordered = []
+    while any(groups.values()):
+        for g in list(groups):
+            if groups[g]:
+                ordered.append(groups[g].pop(0))
+    attempts = 0
+    for f, _ in ordered:
+        if confirmed >= MAX_REPORTED or attempts >= 40:
             break
+        attempts += 1
         path = REPLAY_DIR / f"{prop}-{digest(f['key'])}.json"
         path.write_text(json.dumps(dict(property=prop, key=f["key"], what=f["what"], replay=f["replay"]),
                                    indent=1))
